@@ -7,7 +7,7 @@ import VaxisModel.Model.C12Read
 /-! Driver for C12: a Vaxis application rendered into the embedded terminal emulator.
 Uses the C01 driver's state for `caps`/`size`/`dict`/`cell`/`showcursor`/`hidecursor` lines, plus:
 
-  emucaps \t <17 detected capability bits (order of C07caps)>
+  emucaps <0|1 = COLORTERM is truecolor> \t <17 detected capability bits (order of C07caps)>
       verdict: nothing is detected that the emulator does not implement
   emurender <grid> \t <emulator snapshot>
       snapshot = curRow;curCol;curStyle;dectcem|row/row/…  with cells ghex:w:fg:bg:ul:uls:attr:link:params
@@ -177,7 +177,9 @@ def step (s : St) (line : String) : St × String :=
           | .error _ => none
         ({ s with qEmu := e', qOps := o :: s.qOps, qReplies := s.qReplies ++ rs }, s!"reply={mb}\treply={ib}\t-")
       | _, _ => (s, "-\t-\t-")
-  | ["emucaps"] =>
+  | "emucaps" :: ct =>
+      -- `ct` = "1": COLORTERM=truecolor in the environment (New() posts `truecolor` itself: C07's `colorterm`)
+      let colorterm := ct == ["1"]
       let det := (names.zip (impl.toList.map (· == '1'))).filter (·.2) |>.map (·.1)
       let v := match det.find? (fun n => !implemented.contains n) with
         | some n => s!"FAIL Vaxis understood the emulator's replies as '{n}', which the emulator does not implement"
@@ -186,6 +188,7 @@ def step (s : St) (line : String) : St × String :=
       -- the model of the exchange: capabilities derived from the modelled replies
       let mcaps := match VaxisModel.Model.C12Replies.capsFrom s.qReplies with
         | .ok c => String.ofList (names.map fun n =>
+            if n == "rgb" && colorterm then '1' else
             match (VaxisModel.Model.Input.Caps.fieldNames.zip c.toList).find? (fun (p : String × Bool) => p.1 == n) with
             | some (_, true) => '1'
             | _ => '0')
